@@ -262,6 +262,8 @@ def _eval_expr(e, raws, built):
         return built[e["ref"]]
     if "bin" in e:
         l, r = _eval_expr(e["l"], raws, built), _eval_expr(e["r"], raws, built)
+        if not (_is_utype(l) or _is_utype(r)):
+            raise _Foreign("no utype operand")       # Python's own `int | str`, `3 | 3`, `None & int` …
         try:
             res = OPS[e["bin"]](l, r)
         except Exception as ex:
@@ -270,6 +272,8 @@ def _eval_expr(e, raws, built):
             raise _Foreign(type(ex).__name__)
     elif "inv" in e:
         x = _eval_expr(e["inv"], raws, built)
+        if not _is_utype(x):
+            raise _Foreign("no utype operand")
         try:
             res = ~x
         except Exception as ex:
@@ -548,6 +552,64 @@ def algebra_violations(case, s, top=True) -> list:
     return out
 
 
+def chain_atoms(e, op):
+    """atoms of an expression that is one operator chained over atoms (`a | b | c`, `any_of(a, b, c)`), else None"""
+    if "atom" in e:
+        return [e["atom"]]
+    if e.get("bin") == op:
+        l, r = chain_atoms(e["l"], op), chain_atoms(e["r"], op)
+        return None if l is None or r is None else l + r
+    return None
+
+
+def order_violations(case, s) -> list:
+    """`a <op> b <op> c` has the operands a, b, c — in the order written (first occurrences; Any absorbed)"""
+    if len(case["defs"]) != 1:
+        return []
+    e = case["defs"][0]
+    op = e.get("bin") or e.get("call")
+    if op not in ("|", "^", "&"):
+        return []
+    if "call" in e:
+        if not all("atom" in a for a in e["args"]):
+            return []
+        atoms = [a["atom"] for a in e["args"]]
+    else:
+        atoms = chain_atoms(e, op)
+    if not atoms or len(atoms) < 2:
+        return []
+    kinds = [case["leaves"][a]["kind"] for a in atoms]
+    if "rulebase" in kinds:
+        return []
+    if "any" in kinds and op != "&":
+        want = "rulebase"
+    else:
+        seq, seen_stable = [], set()
+        for a, k in zip(atoms, kinds):
+            if k == "any":
+                continue
+            key = 0 if k == "none" else a
+            if k in ("cls", "rule", "dc", "none"):
+                if key in seen_stable:
+                    continue
+                seen_stable.add(key)
+            seq.append(key)
+        want = "rulebase" if not seq else seq
+
+    def ref(x):
+        return x.get("leaf", x.get("annot")) if isinstance(x, dict) and ("leaf" in x or "annot" in x) else None
+
+    if want == "rulebase":
+        got_ok = isinstance(s, dict) and "rulebase" in s
+    elif len(want) == 1:
+        got_ok = ref(s) == want[0]
+    else:
+        got_ok = isinstance(s, dict) and s.get("comb") == op and [ref(a) for a in s["args"]] == want
+    if got_ok:
+        return []
+    return [("order", f"operands written {atoms} under '{op}' should give {want} in this order, built {json.dumps(norm_ids(s))[:200]}")]
+
+
 def node_law_violations(case, io) -> list:
     """the combinator laws at every node of the real structure, from its arguments measured in isolation"""
     out = []
@@ -756,6 +818,38 @@ def perm_family(rng, probe: Probe):
     return out
 
 
+def kind_matrix():
+    """every ordered pair of operand kinds under every binary operator (which side's metaclass dispatches, which
+    side is flattened), and `~` of every kind"""
+    L = [NONE_LEAF, {"kind": "cls", "name": "int"}, LEAF_POOL[11], LEAF_POOL[9], LEAF_POOL[24], {"kind": "any"},
+         {"kind": "none"}, {"kind": "alias", "spec": "List[int]"}, {"kind": "lit", "value": {"i": "3"}},
+         {"kind": "cls", "name": "str"}, LEAF_POOL[25], {"kind": "rulebase"}]
+    assert L[2]["name"] == "Slug" and L[3]["name"] == "PosInt" and L[4]["name"] == "DcA" and L[10]["name"] == "DcUser"
+    A = lambda i: {"atom": i}
+
+    def operands(op):
+        other = {"|": "^", "^": "&", "&": "|"}[op]
+        return {"cls": A(1), "rule": A(2), "irule": A(3), "dc": A(4), "any": A(5), "none": A(6), "alias": A(7), "lit": A(8),
+                "same": {"bin": op, "l": A(2), "r": A(3)}, "other": {"bin": other, "l": A(3), "r": A(9)},
+                "neg": {"inv": A(2)}, "dcsame": {"bin": op, "l": A(10), "r": A(2)}, "rulebase": A(11),
+                "callsame": {"call": op, "args": [A(9), A(1)]}}
+
+    vals = [{"s": "3"}, {"s": "abc"}, {"l": [{"i": "1"}]}, {"m": [[{"s": "a"}, {"s": "1"}]]}, {"i": "3"}, None]
+    out, n = [], 0
+    for op in "|^&":
+        ops = operands(op)
+        for ka, a in ops.items():
+            for kb, b in ops.items():
+                n += 1
+                out.append({"leaves": L, "defs": [{"bin": op, "l": a, "r": b}], "opts": {}, "value": vals[n % len(vals)]})
+    for k, a in operands("|").items():
+        n += 1
+        out.append({"leaves": L, "defs": [{"inv": a}], "opts": {}, "value": vals[n % len(vals)]})
+        out.append({"leaves": L, "defs": [{"inv": {"inv": a}}], "opts": {}, "value": vals[n % len(vals)]})
+        out.append({"leaves": L, "defs": [{"call": "~", "args": [a]}], "opts": {}, "value": vals[n % len(vals)]})
+    return out
+
+
 # ------------------------------------------------------------------------------------------------
 
 def norm_ids(s):
@@ -795,8 +889,8 @@ class C09(Check):
         "C09_union_accepts_iff assumes the subset law (Mono) of the arguments, which is C12's statement; the stage-wise "
         "theorems (C09_union_refines, C09_union_accepts_iff_stage) do not",
     ]
-    budget = {"quick": 900, "thorough": 9000}
-    search_budget = {"quick": 1500, "thorough": 12000}
+    budget = {"quick": 5000, "thorough": 60000}
+    search_budget = {"quick": 3000, "thorough": 20000}
     _probe = None
 
     # ---- generation ----------------------------------------------------------------------------
@@ -811,6 +905,8 @@ class C09(Check):
     def cases(self, tier, rng, n):
         pr = self.probe()
         out = []
+        if tier != "search":
+            out += kind_matrix()
         out += threading_cases(rng, pr, {"quick": 12, "thorough": 150, "search": 40}.get(tier, 12))
         for _ in range({"quick": 25, "thorough": 300, "search": 60}.get(tier, 25)):
             out += perm_family(rng, pr)
@@ -889,9 +985,10 @@ class C09(Check):
         if "err" not in m:
             return f"outcome differs: impl={r} model={m}"
         got, want = r["err"], back(m["err"])
-        if case["opts"].get("collect_errors") and '"&"' in json.dumps(io["struct"]):
-            # under `&` a failing Rule argument records its errors in the SHARED context before raising, so the
-            # collected list holds them twice; the content of the list is not the property's business: class only
+        if case["opts"].get("collect_errors"):
+            # with error collection the CONTENT of the collected list is not the property's business (and under `&`
+            # a failing Rule argument records its errors in the shared context before raising, so the list holds
+            # them twice): compare the exception class only.  Fail-fast runs compare the whole exception tree.
             got, want = got["e"], want["e"]
         if got != want:
             return f"outcome differs: impl={r} model={ {'err': back(m['err'])} }"
@@ -906,6 +1003,7 @@ class C09(Check):
                 return [("build", f"an operator / constructor applied to a utype type raised: {io['builderr']}")]
             return []
         out = list(algebra_violations(case, io["struct"]))
+        out += order_violations(case, io["struct"])
         out += [("law", w) for w in node_law_violations(case, io)]
         return out
 
